@@ -510,7 +510,8 @@ Definition run (c : case) : obs :=
 
 (* --- comparison: sequence-number sets as sets, maps as sets of bindings ------------------- *)
 Definition incl_b (a b : list Z) : bool := forallb (fun x => mem x b) a.
-Definition set_eqb (a b : list Z) : bool := incl_b a b && incl_b b a.
+(* fast path: the same list; otherwise mutual inclusion *)
+Definition set_eqb (a b : list Z) : bool := list_eqb Z.eqb a b || (incl_b a b && incl_b b a).
 Definition bools_eqb (a b : list bool) : bool := list_eqb Bool.eqb a b.
 Definition fmap_incl (a b : fmap) : bool :=
   forallb (fun kv => match fget (fst kv) b with Some v => bools_eqb (snd kv) v | None => false end) a.
